@@ -4,7 +4,7 @@ properties.jsonl (everything else goes to not_applicable with a reason)."""
 import json
 
 LEVEL_NOTE = ("trusted: go/ssa translation; the gosym SSA interpreter (validated every run by native replay of solver "
-              "models of completed paths and of every counterexample); z3 5.1.0 qfbv (a sample of queries per run is "
+              "models of completed paths and of every counterexample); z3 5.1.0 (incremental core first, qfbv bit-blasting when it does not answer in 30 ms; every model that steers a branch is re-evaluated against the path condition; a sample of queries per run is "
               "cross-checked on z3 4.8.12 / cvc5); the listed stubs (clock, rand, logging, sleep); the reference models in "
               "/verif/harness; bounds as stated in the evidence file - nothing is claimed outside them")
 TECH = "solver-based bounded symbolic execution of the real code (go/ssa -> SMT bit-vectors, z3), counterexamples replayed natively"
@@ -18,7 +18,7 @@ CLAIMED = {
             "values and unconstrained int64 arguments through the real dispatcher, with the monitors 'error reply => every key/value/expiry unchanged', 'no empty "
             "list/hash/set', 'one type per key with matching payload', dictionary placement invariant, no panic; RENAME/RENAMENX/COPY[REPLACE] on every type incl. "
             "source = destination carrying value and expiry; DEL/UNLINK/EXISTS/TOUCH/TYPE/DBSIZE/KEYS/RANDOMKEY against the set of live keys; SORT; redisGlob against "
-            "Redis' stringmatchlen for all patterns <= 3 (4) characters over the glob alphabet", "5/C06"),
+            "Redis' stringmatchlen for all patterns <= 3 (4) characters over the glob alphabet; SORT with BY / LIMIT (all 64-bit offsets and counts) / GET / DESC / STORE against sort.c; thorough tier: 212 argument shapes derived from the real command grammar (every optional argument and oneof alternative of every handler) under the same monitors", "5/C06"),
     "C07": ("bounded symbolic model checking with the clock as a harness variable: for each of 147 command templates and each type of the key, the reply and resulting "
             "state with the key expired-but-still-stored equal those with the key missing (and read commands never list it); per-command TTL rules (30 commands: in-place "
             "modifiers keep, replacing commands clear); EXPIRE/PEXPIRE/EXPIREAT/PEXPIREAT x NX/XX/GT/LT with a symbolic argument (|n| < 3000 units around now) and exact "
@@ -27,31 +27,31 @@ CLAIMED = {
             "monitor over store memory (everything reachable from the data store set at command entry plus what the command publishes); every path must touch store "
             "memory only while a mutex is held and only inside one section of the database mutex (strict two-phase with one lock => every concurrent history is "
             "serialisable in lock-acquisition order); writes into the shared start-up tables are flagged as well. A violation is confirmed natively by running the command "
-            "concurrently with writers of the same key under the Go race detector", "5/C08"),
+            "concurrently with writers of the same key under the Go race detector. Direct check for two clients: for the multi-key and read-modify-write commands the property names (whole table in the thorough tier) another connection's command is placed at every boundary of the command's critical sections and replies + final state must equal one of the two serial orders (computed on identical servers); two critical sections are confirmed natively by counting acquisitions of the database mutex", "5/C08"),
     "C09": ("bounded symbolic model checking of transaction programs (1..4 steps quick, 5 thorough; each step a symbolic choice among MULTI, EXEC, DISCARD, WATCH, UNWATCH, a "
             "valid write, a command failing at run time, commands rejected at queue time (unknown name, bad arity) and a blocking pop) through the real dispatcher against the "
             "multi.c state machine: reply class of every step, queue/normal mode, no effect while queueing (observer connection between steps), one reply per queued command, "
             "runtime error does not stop the rest, EXECABORT after a queue-time rejection, abort by WATCH, state reset after EXEC/DISCARD", "5/C09"),
     "C10": ("bounded symbolic model checking of WATCH k; <one command>; MULTI; SET marker; EXEC for every key type of k and a table of 20-30 commands per type (in-place "
             "writers of every type, replacing writers, rename from/onto, copy onto, expiry changes, flushes, reads, failing writes), issued by the watching or another connection "
-            "before or after MULTI: EXEC aborts iff Redis counts the command as a modification; UNWATCH/DISCARD forget", "5/C10"),
+            "before or after MULTI: EXEC aborts iff Redis counts the command as a modification; UNWATCH/DISCARD forget; repeated / accumulating WATCH, keys in other databases; inductive invariant over the command table: a key whose content, expiry or identity changed carries a version stamp never used before (so no sequence of commands can restore a watched stamp)", "5/C10"),
     "C11": ("bounded symbolic model checking of the block/wake protocol: the real BLPOP/BRPOP (one or two keys) or BLMOVE with timeout 0 runs as the strand under test; "
             "at the entry of every lock-taking function of its protocol and whenever it is parked in its select, another connection performs zero or one command chosen "
             "symbolically among RPUSH x1/x2, LPOP, DEL, push to the second key (<= 3 environment commands per path). Checked: a strand parked for good never coexists with "
             "a non-empty list it waits on (no lost wake-up); the returned element was pushed, was taken by nobody else, and pushed = returned + taken + remaining "
             "(exactly-once); the connection is back to normal afterwards. Wait table: three waiters on symbolic subsets of two keys, unblock(name, n) serves the longest "
-            "waiters first and keeps both linked structures consistent. Counterexamples replay natively with a goroutine scheduler driven at the same schedule points", "5/C11"),
+            "waiters first and keeps both linked structures consistent. Counterexamples replay natively with a goroutine scheduler driven at the same schedule points; all five blocking commands (BRPOPLPUSH, BLMPOP incl. two keys); thorough tier adds LTRIM / RENAME / LMOVE as competitors", "5/C11"),
     "C12": ("bounded symbolic model checking of how a block ends: CLIENT UNBLOCK id [TIMEOUT|ERROR] issued while the target is parked, or the (stub) timer firing: null / "
             "UNBLOCKED error reply, reply 1 only for a blocked target (0 for idle or unknown ids, 0 after the fact), capture state / pending flag / mailbox / wait "
             "queues reset, a later push stays in the list, the connection blocks and is served again; blocking commands queued in MULTI return null at EXEC without "
-            "blocking. Outside the claim: promptness after the timeout (Go runtime timers) and TCP close / CLIENT KILL delivery", "5/C12"),
+            "blocking. Outside the claim: promptness after the timeout (Go runtime timers) and TCP close / CLIENT KILL delivery; the timer a block arms: exactly the timeout, exactly the remaining time after a lost race (harness clock), no reachable deadline for timeout 0, null reply and state reset when it fires; CLIENT UNBLOCK [ERROR] arriving at every schedule point of all five blocking commands: reports 1 exactly when it ends the block, is never remembered", "5/C12"),
     "C13": ("bounded symbolic model checking of the parser on every byte string up to 5 (quick) / 7 (thorough) bytes and of the length-taking parser routines for every "
             "non-negative declared count: no panic, no allocation by declared size, consumed length inside the buffer (command-level no-panic obligations are part of "
-            "the per-family checks C02-C05/C18, whose harnesses run under vCatch with unconstrained int64 arguments)", "5/C13"),
+            "the per-family checks C02-C05/C18, whose harnesses run under vCatch with unconstrained int64 arguments); every length-taking header ($ * % ~ > | ! = and the ;n chunks of streamed strings) with an arbitrary 64-bit number through the public parser entry; the command table (175 templates, thorough: + 212 grammar-derived shapes) x 5 key types with every integer argument an arbitrary 64-bit number under the no-panic / no-client-sized-allocation monitor; commands with non-bulk RESP2/RESP3 arguments; session commands queued and run by EXEC (self-deadlock = a strand that blocks for ever is reported); RESTORE with arbitrary 10..16-byte payloads (the solver produces the checksum) and DUMP/RESTORE round trips", "5/C13"),
     "C02": ("bounded symbolic model checking of the real command path (dispatcher, grammar parser, handlers, store) for the string/counter family: "
             "SET option combinations on every key type, SETNX/GETSET/GETDEL/APPEND/STRLEN, MSET/MSETNX all-or-nothing, INCR family for all int64 "
-            "old values and deltas with exact overflow, GETRANGE/SETRANGE for all int64 offsets, against a model of t_string.c; values are symbolic byte strings of <= 2-3 bytes", "5/C02"),
-    "C03": ("bounded symbolic model checking of every list command through the real dispatcher on lists of symbolic length (<=3 quick, <=4 thorough) "
+            "old values and deltas with exact overflow, GETRANGE/SETRANGE for all int64 offsets, against a model of t_string.c; values are symbolic byte strings of <= 2-3 bytes (4-5 in the thorough tier)", "5/C02"),
+    "C03": ("bounded symbolic model checking of every list command through the real dispatcher on lists of symbolic length (<=3 quick, <=5 thorough) "
             "with symbolic one-byte elements and unconstrained int64 index/count/rank arguments, against a Go-slice model of t_list.c plus the "
             "linked-list representation invariant (inductive step within the size bound)", "5/C03"),
     "C04": ("bounded symbolic model checking of the hash commands through the real dispatcher: hashes over a 3-name pool with symbolic membership and "
@@ -62,7 +62,7 @@ CLAIMED = {
             "source = destination, SREM, SINTERCARD for all int64 limits, SRANDMEMBER shape for counts -3..3 and extreme counts", "5/C05"),
     "C14": ("bounded symbolic model checking of programs of 2 (quick) / 3 (thorough) steps by two connections plus a third opened at a symbolic step, each step a "
             "symbolic choice of SELECT / SET / GET / DEL / DBSIZE / FLUSHDB / FLUSHALL / CLIENT SETNAME / GETNAME, against 16 model maps and per-connection session records "
-            "(every reply, frame condition on every connection after every step, final cross-read); SELECT for every int64 index", "5/C14"),
+            "(every reply, frame condition on every connection after every step, final cross-read); SELECT for every int64 index; SELECT queued inside MULTI (3-4 queued steps) with an observer connection reading every database", "5/C14"),
     "C15": ("bounded symbolic model checking of resp3To2 on reply trees of every RESP3 kind (depth <= 1 quick / 2 thorough, symbolic leaves) against the canonical "
             "down-conversion, RESP2-only output types and one-frame serialisation; HELLO for all int64 protocol versions incl. frame condition on a second connection; "
             "30 commands of every reply shape executed on identical data under RESP2 and RESP3 with reply2 = downconvert(reply3)", "5/C15"),
@@ -78,7 +78,7 @@ CLAIMED = {
     "C18": ("bounded symbolic model checking: the real bit kernels (extractBitfield, setBitfield, signExtend, signed/unsigned overflow) over a 10-byte "
             "symbolic array / all int64 values and all offsets and widths against a big-endian bit-vector reference and Redis' overflow functions; "
             "BITFIELD GET/SET/INCRBY through the real dispatcher (type table, bit and #-offsets, every OVERFLOW mode, symbolic stored bytes and value) against "
-            "bitfieldGeneric; SETBIT/GETBIT, BITCOUNT and BITPOS for all int64 ranges on strings of <= 1 byte (quick) / 2 bytes (thorough), BITOP with zero padding", "5/C18"),
+            "bitfieldGeneric; SETBIT/GETBIT, BITCOUNT and BITPOS for all int64 ranges on strings of <= 1 byte (quick) / 2 bytes (thorough), BITOP with zero padding; BITFIELD / BITFIELD_RO offsets (plain and #n) for every 64-bit number", "5/C18"),
     "C19": ("bounded symbolic model checking of the real save/load code over a file-system/gob model (files are record lists; every Create/Encode/Rename/Remove is one "
             "effect; gob's empty-slice quirk is modelled): save -> restart -> load restores keys, types, values, element order, deadlines and the version counter for a store "
             "with symbolic values of every type; a further acknowledged change out of 16 (in-place, deleting, flushing, renaming) survives a second save/restart; a save cut "
